@@ -311,6 +311,23 @@ pub fn build_world(seed: u64, idx: u64, out: &mut RunOut) -> World {
     origins.push(origin);
     jobs.push(Job { schema, opts, single });
   }
+  // the same schema text under other options, before or after: what one generation leaves behind (a memo
+  // keyed by the text, a counter) must not reach the next
+  if rk.chance(1, 3) {
+    let mut twin = jobs[0].clone();
+    twin.opts = rand_opts(&mut rw, &twin.schema);
+    if twin.opts == jobs[0].opts {
+      twin.opts.any_type = Some("ciborium::Value".into());
+      twin.opts.non_exhaustive = !twin.opts.non_exhaustive;
+    }
+    twin.single = None;
+    if rk.coin() {
+      jobs.insert(0, twin);
+      origins.insert(0, "same-text-other-options".to_string());
+    } else {
+      jobs.push(twin);
+    }
+  }
   World { jobs, origin: origins.join("+") }
 }
 
@@ -435,77 +452,93 @@ pub fn exec(w: &World) -> Out {
   if w.jobs.is_empty() {
     return o;
   }
-  let j0 = &w.jobs[0];
-  let mut outs: Vec<(String, String)> = Vec::new(); // (circumstance, output)
-  // fresh process first (before this process has generated anything in this run)
-  match zygote::ask(&json!({"jobs": [j0.to_json()]})) {
+  let n = w.jobs.len();
+  // outs[k] = (circumstance, output) of job k under every circumstance
+  let mut outs: Vec<Vec<(String, String)>> = vec![Vec::new(); n];
+  // a fresh process generates the jobs in REVERSE order (before this process has generated anything in this run)
+  let rev: Vec<usize> = (0..n).rev().collect();
+  match zygote::ask(&json!({"jobs": rev.iter().map(|k| w.jobs[*k].to_json()).collect::<Vec<_>>()})) {
     Some(v) => {
-      if let Some(s) = v["outs"][0].as_str() {
-        outs.push(("in a fresh process".into(), s.to_string()));
+      for (i, k) in rev.iter().enumerate() {
+        if let Some(s) = v["outs"][i].as_str() {
+          outs[*k].push((if i == 0 { "in a fresh process, first".to_string() } else { format!("in a fresh process, after {} other generation(s)", i) }, s.to_string()));
+        }
       }
     }
     None => o.ref_missing = true,
   }
-  outs.push(("first, on the coordinating thread".into(), generate(j0)));
-  outs.push(("again on the same thread".into(), generate(j0)));
-  // after other generations
-  for j in w.jobs.iter().skip(1) {
-    let _ = generate(j);
-    o.generations += 1;
+  // this process, coordinating thread, forward order, the first job twice
+  for k in 0..n {
+    outs[k].push((format!("on the coordinating thread, after {} other generation(s) of this run", k), generate(&w.jobs[k])));
+    if k == 0 {
+      outs[0].push(("again on the same thread".into(), generate(&w.jobs[0])));
+    }
   }
-  outs.push(("after generating the other schemas of the run".into(), generate(j0)));
-  // on fresh threads: fresh hash keys, another thread identity
-  let threaded: Vec<String> = std::thread::scope(|sc| {
-    let hs: Vec<_> = (0..2)
-      .map(|k| {
+  outs[0].push(("after generating the other schemas of the run".into(), generate(&w.jobs[0])));
+  // fresh threads: fresh hash keys, another thread identity, reverse order on one of them
+  let jobs = &w.jobs;
+  let threaded: Vec<Vec<(usize, String)>> = std::thread::scope(|sc| {
+    let hs: Vec<_> = (0..2usize)
+      .map(|t| {
         std::thread::Builder::new()
           .stack_size(STACK_BYTES)
-          .name(format!("gen-{}", k))
+          .name(format!("gen-{}", t))
           .spawn_scoped(sc, move || {
             crate::alloc::set_subject(true);
-            // a different number of containers created before the generation on each thread
+            // a different number of hash containers created before the generation on each thread
             let mut warm = Vec::new();
-            for i in 0..(k * 3 + 1) {
+            for i in 0..(t * 3 + 1) {
               let mut h = std::collections::HashMap::new();
               h.insert(i, i);
               warm.push(h);
             }
-            let a = generate(j0);
-            let b = generate(j0);
+            let order: Vec<usize> = if t == 0 { (0..jobs.len()).collect() } else { (0..jobs.len()).rev().collect() };
+            let mut v = Vec::new();
+            for k in order {
+              v.push((k, generate(&jobs[k])));
+            }
+            v.push((0, generate(&jobs[0])));
             drop(warm);
-            vec![a, b]
+            v
           })
           .expect("spawn gen thread")
       })
       .collect();
-    hs.into_iter().flat_map(|h| h.join().unwrap_or_default()).collect()
+    hs.into_iter().map(|h| h.join().unwrap_or_default()).collect()
   });
-  for (i, s) in threaded.into_iter().enumerate() {
-    outs.push((format!("on fresh thread {} (generation {})", i / 2, i % 2), s));
-  }
-  o.generations += outs.len() as u64;
-  let base = outs[0].1.clone();
-  o.kind = base.lines().next().unwrap_or("").to_string();
-  o.fp = fnv_add(o.fp, base.as_bytes());
-  for (circ, s) in outs.iter().skip(1) {
-    if *s != base {
-      let mut mw = w.clone();
-      if !circ.starts_with("after generating") {
-        mw.jobs.truncate(1);
-      }
-      o.violations.push(Violation {
-        class: "nondeterministic-generation".into(),
-        signature: format!("{}:{}", if j0.single.is_some() { "single" } else { "all" }, base.lines().next().unwrap_or("")),
-        world: mw.to_json(),
-        detail: format!("the output generated {} differs from the output generated {}: {}", circ, outs[0].0, first_diff(&base, s)),
-      });
-      break;
+  for (t, v) in threaded.into_iter().enumerate() {
+    for (i, (k, s)) in v.into_iter().enumerate() {
+      outs[k].push((format!("on fresh thread {} (its generation number {})", t, i), s));
     }
   }
-  if base.starts_with("OK\n") {
-    if let Some(why) = uniqueness_violation(&base[3..]) {
+  for k in 0..n {
+    o.generations += outs[k].len() as u64;
+  }
+  let base0 = outs[0][0].1.clone();
+  o.kind = base0.lines().next().unwrap_or("").to_string();
+  o.fp = fnv_add(o.fp, base0.as_bytes());
+  'jobs: for k in 0..n {
+    let base = outs[k][0].1.clone();
+    for (circ, s) in outs[k].iter().skip(1) {
+      if *s != base {
+        // the job under test goes first in the replay world
+        let mut mw = w.clone();
+        mw.jobs.swap(0, k);
+        o.violations.push(Violation {
+          class: "nondeterministic-generation".into(),
+          signature: format!("{}:{}", if w.jobs[k].single.is_some() { "single" } else { "all" }, base.lines().next().unwrap_or("")),
+          world: mw.to_json(),
+          detail: format!("the output generated {} differs from the output generated {}: {}", circ, outs[k][0].0, first_diff(&base, s)),
+        });
+        break 'jobs;
+      }
+    }
+  }
+  if base0.starts_with("OK\n") {
+    if let Some(why) = uniqueness_violation(&base0[3..]) {
       let mut mw = w.clone();
       mw.jobs.truncate(1);
+      let j0 = &w.jobs[0];
       let sig = if why.starts_with("type name") {
         let name = why.split(' ').nth(2).unwrap_or("");
         format!("type-name:{}", collision_cause(&j0.schema, name))
